@@ -90,6 +90,63 @@ def run(rec, F):
         rec.inst(R, "%s: every normal exit hits, fills or clears the slot" % fn.name, ok=not bad, loc=fn.loc)
         if bad:
             rec.finding(R, "F4.cache/%s/stale-path" % fn.name, "%s has a normally-ending path that answers without the cache (e.g. a field shadowing a method) and leaves the slot's previous entry in place" % fn.name, loc=fn.loc, fn=fn.path)
+    # transparency: what a hit does to the stack is what the filling (slow) path does
+    STACK = ("push", "pop", "drop", "drop_n", "peek_set", "resolve_call", "bind_method")
+    for fn in users:
+        gets = [(bi, t) for bi, t in fn.calls() if t["f"].startswith(CACHE + "get_")]
+        setb = set(b for b, t in fn.calls() if t["f"].startswith(CACHE + "set_"))
+        if not gets or gets[0][1]["to"] < 0:
+            continue
+        swb = gets[0][1]["to"]
+        sv = sem.switch_variants(F, fn, swb)
+        if not sv:
+            continue
+        hit = miss = None
+        for v, dst in fn.blocks[swb]["t"]["targets"]:
+            if sv[1].get(v) == "Some":
+                hit = dst
+            elif sv[1].get(v) == "None":
+                miss = dst
+        other = fn.blocks[swb]["t"]["otherwise"]
+        if hit is None:
+            hit = other
+        if miss is None:
+            miss = other
+
+        def seqs(start, need_set):
+            out = set()
+            st = [(start, (), False, frozenset())]
+            steps = 0
+            while st and steps < 5000:
+                steps += 1
+                b, seq, has_set, seen = st.pop()
+                if b in seen:
+                    continue
+                t = fn.blocks[b]["t"]
+                nseq, nset = seq, has_set or b in setb
+                if t["k"] == "call":
+                    n = lastseg(t["f"])
+                    if n in STACK and ("fiber::Fiber::" in t["f"] or "<impl laythe_vm::vm::Vm>" in t["f"]):
+                        extra = ""
+                        if n in ("peek_set", "drop_n") and len(t["args"]) > 1:
+                            c = sem.const_int(t["args"][1])
+                            extra = "(%s)" % (c if c is not None else "n")
+                        nseq = seq + (n + extra,)
+                    if n.startswith(("runtime_error", "internal_error")):
+                        continue  # error path
+                if t["k"] == "return":
+                    if nset or not need_set:
+                        out.add(nseq)
+                    continue
+                for x in fn.succ(b):
+                    st.append((x, nseq, nset, seen | {b}))
+            return out
+        hs = seqs(hit, False)
+        ms = seqs(miss, True)
+        ok = bool(hs) and bool(ms) and hs == ms
+        rec.inst(R, "%s: hit path = fill path on the stack" % fn.name, ok=ok, loc=fn.loc, note="hit %s / fill %s" % (sorted(hs), sorted(ms)))
+        if not ok:
+            rec.finding(R, "F4.cache/%s/hit-vs-fill" % fn.name, "%s: a cache hit performs the stack operations %s while the slow path that fills the cache performs %s: the instruction would leave different values on the stack depending on whether the cache is warm" % (fn.name, sorted(hs), sorted(ms)), loc=fn.loc, fn=fn.path)
     # lookup returns payload only on class equality
     for nm in ("get_property_cache", "get_invoke_cache"):
         g = F.fn(CACHE + nm)
